@@ -144,6 +144,31 @@ class Node:
             raise VirtualDeadline(self.name)
         return not radio.irq_level()
 
+    def wait_rx(self, radio, timeout_ns, latency_ns=5000):
+        """sleep until the radio holds a received payload (RX_DR-driven application)"""
+        if self.world.stopping and self.daemon:
+            raise StopNode()
+        self.world.sync(self)
+        if radio.rx_fifo:
+            self.advance(latency_ns)
+            return True
+        start = self.t
+        self.irq_wait = (radio, start, latency_ns)
+        radio.rx_waiters.append(self)
+        self.t = start + int(timeout_ns)
+        try:
+            self.world.sync(self)
+        finally:
+            if self.irq_wait is not None:
+                self.irq_wait = None
+            if self in radio.rx_waiters:
+                radio.rx_waiters.remove(self)
+        if self.world.stopping and self.daemon:
+            raise StopNode()
+        if self.deadline is not None and self.t > self.deadline:
+            raise VirtualDeadline(self.name)
+        return bool(radio.rx_fifo)
+
     def irq_fired(self):
         """called by the radio (in whichever thread holds the baton)"""
         if self.irq_wait is None:
@@ -152,6 +177,8 @@ class Node:
         self.irq_wait = None
         if self in radio.irq_waiters:
             radio.irq_waiters.remove(self)
+        if self in radio.rx_waiters:
+            radio.rx_waiters.remove(self)
         self.t = max(start, self.world.now) + lat
 
 
@@ -168,6 +195,9 @@ class World:
         self.n_events = 0
         self.n_switches = 0
         self.swap_frame_ids = None  # callable(old_node, new_node)
+        # a node may run ahead of the others by this much without yielding: nothing one MCU
+        # does can reach another MCU's radio in less than TX settling (130 us) + air time
+        self.lookahead = 0
         self.horizon = 30 * 1000 * MS  # absolute virtual time at which any node is stopped
 
     # -- events ----------------------------------------------------------
@@ -233,7 +263,8 @@ class World:
             if te <= my and te <= tn:
                 self._run_event()
                 continue
-            if other is not None and (tn < my or (tn == my and other.idx < node.idx)):
+            if other is not None and (tn + self.lookahead < my
+                                      or (tn == my and other.idx < node.idx)):
                 self._switch(node, other)
                 continue
             break
